@@ -15,6 +15,8 @@ VERIF = os.path.dirname(os.path.dirname(os.path.abspath(__file__)))
 REPO = os.environ.get('VERIF_REPO', '/repo')
 BUILD_ROOT = os.environ.get('VERIF_BUILD_ROOT', os.path.join(VERIF, '.build'))
 NWORKERS = int(os.environ.get('VERIF_WORKERS', '16'))
+# where evidence/ and replays/ go (the mutant sweep points this away from the committed evidence)
+OUT = os.environ.get('VERIF_OUT', VERIF)
 
 ASAN_OPTIONS = ('abort_on_error=1:detect_leaks=0:allocator_may_return_null=0:max_allocation_size_mb=512:'
                 'handle_abort=1:detect_stack_use_after_return=0:symbolize=1:print_summary=1:malloc_context_size=12')
@@ -131,7 +133,7 @@ def parse_tsan(text):
                 continue
             for fm in _FRAME.finditer(part) if False else re.finditer(r'(?m)^\s*#\d+ (?:0x[0-9a-f]+ in )?(.+?) (/[^\s:]+)(?::(\d+))?', part):
                 fn, path = fm.group(1), fm.group(2)
-                if '/repo/src/' in path or '/verif/harness/' in path:
+                if ('/src/' in path or '/harness/' in path) and '/include/c++' not in path and '/bits/' not in path and '/lib/' not in path:
                     fns.append(_short_fn(fn) + '@' + os.path.basename(path))
                     break
         sm = re.search(r'SUMMARY: ThreadSanitizer: ([^\n]*)', block)
@@ -515,7 +517,7 @@ class Check:
 
     def finish(self, rule, min_evaluations=1, assumptions=None, extra=None, exhaustive=False):
         wall = time.time() - self.t0
-        os.makedirs(os.path.join(VERIF, 'evidence'), exist_ok=True)
+        os.makedirs(os.path.join(OUT, 'evidence'), exist_ok=True)
         cov = {
             'evaluations': int(self.evaluations),
             'distinct_nontrivial': int(len(self.signatures)),
@@ -540,7 +542,7 @@ class Check:
             'wall_s': round(wall, 2),
             'violations': len(self.violations),
         }
-        with open(os.path.join(VERIF, 'evidence', self.prop + '.json'), 'w') as f:
+        with open(os.path.join(OUT, 'evidence', self.prop + '.json'), 'w') as f:
             json.dump(ev, f, indent=1, ensure_ascii=True)
         for fid, what in sorted(self.known_hits.items()):
             print('KNOWN-FINDING: property=%s %s: %s' % (self.prop, fid, what))
@@ -548,14 +550,14 @@ class Check:
             print('note: ' + n)
         rc = 0
         import shutil
-        shutil.rmtree(os.path.join(VERIF, 'replays', self.prop), ignore_errors=True)
+        shutil.rmtree(os.path.join(OUT, 'replays', self.prop), ignore_errors=True)
         if self.violations:
-            os.makedirs(os.path.join(VERIF, 'replays', self.prop), exist_ok=True)
-            with open(os.path.join(VERIF, 'replays', self.prop, '_summary.json'), 'w') as f:
+            os.makedirs(os.path.join(OUT, 'replays', self.prop), exist_ok=True)
+            with open(os.path.join(OUT, 'replays', self.prop, '_summary.json'), 'w') as f:
                 json.dump([{'key': k, 'desc': d[:300]} for k, d, _ in self.violations], f, indent=1, ensure_ascii=True)
             for key, desc, replay in self.violations[:10]:
                 h = hashlib.sha1(key.encode('latin-1', 'replace')).hexdigest()[:12]
-                path = os.path.join(VERIF, 'replays', self.prop, h + '.json')
+                path = os.path.join(OUT, 'replays', self.prop, h + '.json')
                 with open(path, 'w') as f:
                     json.dump({'property': self.prop, 'key': key, 'description': desc, 'seed': seed(), 'replay': replay}, f, indent=1, ensure_ascii=True)
                 print('VIOLATION property=%s replay=%s' % (self.prop, path))
